@@ -437,7 +437,7 @@ def gen_long_literal(rng):
     return samples
 
 
-def gen_shared_under_root(rng):
+def gen_shared_under_root(rng, union=None):
     """one root whose nested classes share a child model (the nested layout hoists it into the root and refers to it by an
     absolute 'Root.Child' path), under root names the generator has to convert"""
     name = rng.choice(ROOT_NAMES + ["Route-2", "2fast", "Données", "my root"])
@@ -446,6 +446,10 @@ def gen_shared_under_root(rng):
              "deep": {"inner": {"point": pt(3), "c": [1]}, "d": 1.5}}]
     if rng.random() < 0.4:
         docs.append({"left": {"point": pt(4), "a": 2}, "right": {"point": pt(5), "b": "y"}, "deep": {"inner": {"point": pt(6), "c": []}, "d": 2}})
+    if (rng.random() < 0.6) if union is None else union:
+        # ... the shared child also sits inside a Union / a list of mixed members in one of the referring classes
+        docs.append({"left": {"point": pt(7), "a": 3}, "right": {"point": rng.choice([7, "far", [pt(8), 1]]), "b": "z"},
+                     "deep": {"inner": {"point": pt(9), "c": [2]}, "d": 3}})
     return name, docs
 
 
